@@ -379,7 +379,7 @@ using namespace foonathan::memory;
                 release_all(u, int(r.below(3)));
             auto ns   = p.node_size();
             auto want = p.capacity_left() / ns;
-            if (want > 20000)
+            if (want > 3000)
                 return;
             op("drain want=%zu", want);
             auto               att0 = u.src->attempts();
